@@ -10,6 +10,7 @@ CONSTANTS
   Aging = TRUE
   TwoStep = FALSE
   RecAging = TRUE
+  MaxFaults = 1
 VIEW view
 INVARIANTS TypeOK OneRunner RunnerRegistered NoPanic AtMostOnce StartOnce MutexInv WaitTruth StaleRejected IndexLags
 PROPERTIES StartedFromNS TerminalStable OnlyRunningResumed OnlyStaleClosed
